@@ -65,15 +65,16 @@ func run(r *core.Run) {
 			r.Sample(map[string]any{"tree": t.Case.String(), "values": st.Values - before.Values})
 		}
 	}
-	if only == "" || only == "dsl" {
-		if w.WalkDSL(core.Pick(r, 3, 4), 2, judge) {
-			r.Section("dsl")
-		}
-	}
 	if only == "" || only == "corpus" {
 		o := c05.CorpusOpts{MaxSize: int64(core.Pick(r, 1<<18, 0)), MaxValues: core.Pick(r, 20000, 0), More: r.Thorough()}
 		if w.WalkCorpus(o, topStarts, judge) {
 			r.Section("corpus")
+		}
+	}
+	// the large enumeration last (simplest programs first): a deadline cuts only its tail
+	if only == "" || only == "dsl" {
+		if w.WalkDSL(core.Pick(r, 3, 4), 2, judge) {
+			r.Section("dsl")
 		}
 	}
 	r.Eval(evals)
